@@ -138,10 +138,14 @@ AttemptEnd ==
      THEN LET m == IF obs.marks = <<>> THEN Len(obs.draws) ELSE obs.marks[Len(obs.marks)] IN
           obs' = [obs EXCEPT !.marks = IF @ = <<>> THEN @ ELSE SubSeq(@, 1, Len(@) - 1),
                              !.draws = IF ~Ev.ret /\ Ev.last = "skip" THEN SubSeq(@, 1, m) ELSE @]
-     ELSE LET skipped == ~Ev.ret /\ Ev.last = "skip"
-              drew == Len(obs.draws) > obs.actmark
-          IN obs' = [obs EXCEPT !.draws = IF skipped /\ drew /\ obs.step >= 0 THEN SubSeq(@, 1, obs.step) ELSE @,   \* the step is rejected
-                                !.instep = skipped /\ ~drew]
+     ELSE LET drew == Len(obs.draws) > obs.actmark
+              \* the action skipped before it began to draw: tried again in place, within the same step
+              skippedInPlace == ~Ev.ret /\ Ev.last = "skip" /\ ~drew
+              \* the action skipped after drawing, or was abandoned inside a draw by a generator that gave up (no call of its own ended it):
+              \* the whole step is rejected and its bits are pruned
+              rejectedStep == ~Ev.ret /\ ((Ev.last = "skip" /\ drew) \/ Ev.last = "")
+          IN obs' = [obs EXCEPT !.draws = IF rejectedStep /\ obs.step >= 0 THEN SubSeq(@, 1, obs.step) ELSE @,
+                                !.instep = skippedInPlace]
   /\ UNCHANGED <<scen, viol, words, wpos, fz, res, pr, kind, runno, iter>>
 
 InvBegin == /\ Is("inv.begin") /\ Adv /\ obs' = NoObs /\ UNCHANGED <<scen, viol, words, wpos, fz, res, pr, kind, runno, iter>>
